@@ -80,6 +80,8 @@ impl<T, const BUCKET_CAPACITY: usize> Injector<T, BUCKET_CAPACITY> {
 
         // Ordering: this flag is only used as a hint so Relaxed ordering is
         // sufficient.
+        #[cfg(feature = "verif-hooks")]
+        crate::verif_hooks::probe(crate::verif_hooks::site::INJECTOR_INSERT_BEFORE_FLAG, 0);
         self.is_empty.store(false, Ordering::Relaxed);
     }
 
@@ -94,6 +96,8 @@ impl<T, const BUCKET_CAPACITY: usize> Injector<T, BUCKET_CAPACITY> {
         if was_empty {
             // Ordering: this flag is only used as a hint so Relaxed ordering is
             // sufficient.
+            #[cfg(feature = "verif-hooks")]
+            crate::verif_hooks::probe(crate::verif_hooks::site::INJECTOR_PUSH_BEFORE_FLAG, 0);
             self.is_empty.store(false, Ordering::Relaxed);
         }
     }
@@ -131,6 +135,8 @@ impl<T, const BUCKET_CAPACITY: usize> Injector<T, BUCKET_CAPACITY> {
         if inner.is_empty() {
             // Ordering: this flag is only used as a hint so Relaxed ordering is
             // sufficient.
+            #[cfg(feature = "verif-hooks")]
+            crate::verif_hooks::probe(crate::verif_hooks::site::INJECTOR_POP_BEFORE_FLAG, 0);
             self.is_empty.store(true, Ordering::Relaxed);
         }
 
